@@ -296,7 +296,9 @@ def check_iface(spec):
             sk = rejected_skip(e)
             if sk is not None:
                 return sk
-            return bad(f"jacobian-raised:{iface}:{diff}:{dev_name}:{feats}:{type(e).__name__}", f"{type(e).__name__}: {e}"[:300], "a Jacobian with the result's nesting")
+            argtag = 'multi-arg' if nargs > 1 else 'single-arg'
+            return bad(f"jacobian-raised:{iface}:{diff}:{dev_name}:{feats}:{argtag}:{type(e).__name__}",
+                       f"{type(e).__name__}: {e}"[:300], "a Jacobian with the result's nesting")
         multi = nargs > 1
         jexp = jac_structure(exp, arg_shapes[:nargs], multi)
         jobs = observe(jac)
